@@ -342,4 +342,18 @@ theorem reach_run {cap script} : ∀ (acts : List Act) {s t}, Reach cap script s
 theorem reach_of_run {cap script} (acts : List Act) {t} (h : runActs cap (MB.init script) acts = some t) :
     Reach cap script t := reach_run acts Reach.init h
 
+/-! scripts for the non-vacuity examples of `Props/C12.lean` -/
+
+def demoScript (i : Nat) : List Job := if i < 2 then [⟨i, 0⟩, ⟨i, 1⟩] else []
+
+theorem demo_owned : OwnedScript demoScript := by
+  intro i j hj
+  unfold demoScript at hj
+  split at hj
+  · simp at hj; rcases hj with rfl | rfl <;> rfl
+  · cases hj
+
+theorem demo_nodup : ∀ i, (demoScript i).Nodup := by
+  intro i; unfold demoScript; split <;> simp [Job.mk.injEq]
+
 end FpgoVerif.C12
